@@ -3,7 +3,7 @@
 root with a single index build; evidence is written to a scratch directory, never to /verif/evidence.
 Prints one line per property: rc and the new (unlisted) findings. Development / seeding aid."""
 import contextlib, importlib, io, json, os, sys, tempfile, shutil, traceback
-sys.path.insert(0, "/verif")
+sys.path.insert(0, os.environ.get("XSA_CODE", "/verif"))  # XSA_CODE: run a frozen copy of the checkers (a long evaluation while /verif is edited)
 args = sys.argv[1:]
 root = None
 if args and args[0] == "--root":
